@@ -20,6 +20,8 @@ func init() {
 	add("C04", backpressureCases)
 	add("C10", backpressureCases)
 	add("C02", sharedMDCases)
+	add("C08", orphanSendCases)
+	add("C07", orphanSendCases)
 	add("C09", contOverrunCases)
 	add("C03", contOverrunCases)
 	add("C13", contOverrunCases)
